@@ -17,7 +17,7 @@ EXTENDS Integers, Sequences, FiniteSets, TLC, Json
 
 E == 2
 H6 == 2
-NEpochs == 1000
+NEpochs == 16
 Metas == {}
 DHosts == {}
 Vals == {}
